@@ -4,6 +4,7 @@ import (
 	"encoding/hex"
 	"fmt"
 	"math/big"
+	"sort"
 	"strconv"
 	"strings"
 	"time"
@@ -362,6 +363,13 @@ func (w *W) opMint(op string, qi int, variant string) error {
 		outs = w.U.Outputs(id, world.Split(amt)...)
 	case "badsig", "nosig":
 		outs = w.U.Outputs(act.Id, world.Split(amt)...)
+	case "unsorted", "sig-reordered", "sig-sorted", "sig-added", "sig-removed", "sig-otherquote":
+		// several outputs of different amounts in an order that is not sorted (amount >= 8): 4,1,2,1,...
+		if amt < 8 {
+			return nil
+		}
+		outs = w.U.Outputs(act.Id, append([]uint64{4, 1, 2, 1}, world.Split(amt-8)...)...)
+		honest = variant == "unsorted"
 	default:
 		return fmt.Errorf("mint variant %q", variant)
 	}
@@ -381,6 +389,26 @@ func (w *W) opMint(op string, qi int, variant string) error {
 		case "badsig":
 			other := secp256k1.PrivKeyFromBytes(sha256sum("another key"))
 			s, _ := nut20.SignMintQuote(other, q.Q.Id, req.Outputs)
+			req.Signature = hex.EncodeToString(s.Serialize())
+			sigOK = false
+		case "sig-reordered", "sig-sorted", "sig-added", "sig-removed", "sig-otherquote":
+			// a genuine signature by the right key, but not over exactly the submitted outputs of this quote
+			signed := append(cashu.BlindedMessages{}, req.Outputs...)
+			qid := q.Q.Id
+			switch variant {
+			case "sig-reordered": // signed in the submitted order rotated by one
+				signed = append(signed[1:], signed[0])
+			case "sig-sorted": // signed over the outputs sorted by amount
+				sort.SliceStable(signed, func(i, j int) bool { return signed[i].Amount < signed[j].Amount })
+			case "sig-added": // an output is submitted that the signature does not cover
+				signed = signed[:len(signed)-1]
+			case "sig-removed": // the signature covers an output that is not submitted
+				req.Outputs = req.Outputs[:len(req.Outputs)-1]
+				outs = outs[:len(outs)-1]
+			case "sig-otherquote":
+				qid = w.Quotes[0].Q.Id
+			}
+			s, _ := nut20.SignMintQuote(q.Key, qid, signed)
 			req.Signature = hex.EncodeToString(s.Serialize())
 			sigOK = false
 		default:
